@@ -39,8 +39,11 @@ class UseGenerator(SimpleCodemod, NameResolutionMixin):
                             self.add_change(original_node, self.change_description)
                             other_args = list(original_node.args[1:])
                             # A generator expression needs no parens of its own only
-                            # when it is the sole argument of the call
-                            parens = bool(other_args)
+                            # when it is the sole argument of the call and is not
+                            # followed by a trailing comma
+                            parens = bool(other_args) or isinstance(
+                                original_node.args[0].comma, cst.Comma
+                            )
                             first_arg = original_node.args[0].with_changes(
                                 value=cst.GeneratorExp(
                                     elt=elt,  # type: ignore
